@@ -107,7 +107,12 @@ def core_scripts(r, n):
                 al2 = r.choice([None, "u0"])
                 items2 = [A.iexpr(A.col(r.choice([None, al2 or t2[1]]), r.choice(cols)), None) for _ in items]
                 q = A.union(q, A.select(items2, [A.rtable(t2[0], t2[1], al2)]))
-            kind = r.choice(["insert", "insert", "insertc", "ctas", "view"])
+            kind = r.choice(["insert", "insert", "insertc", "ctas", "view", "query"])
+            if kind == "query" and q[0] == "select":
+                ss.append(("query", q))
+                continue
+            if kind == "query":
+                kind = "insert"
             if kind == "insertc" and items[0][0] != "star":
                 ss.append(("insert", tgt, r.sample(cols + ["k", "m"], len(items)), q))
             elif kind in ("ctas", "view"):
@@ -212,9 +217,9 @@ def main() -> int:
     import astgen
     from common import coq_eval
     cs = core_scripts(r, 150 if quick else 2500)
-    exprs = ["(if forallb core_ok_u [%s] then \"in:\" else \"out:\") ++ join \";\" (spec_script_pairs \"\" [%s])"
-             % ("; ".join(astgen.g_stmt(x) for x in ss), "; ".join(astgen.g_stmt(x) for x in ss)) for ss in cs]
-    spec_out = coq_eval("From SV Require Import Ast.Spec Tree.LemmaB Tree.LemmaBProofs Tree.ScriptExact Tree.ScriptExactUnion.\nOpen Scope string_scope.", exprs, shard=200)
+    exprs = ["(if forallb core_ok_u [%s] || forallb core_ok_ext [%s] then \"in:\" else \"out:\") ++ join \";\" (spec_script_pairs \"\" [%s])"
+             % (("; ".join(astgen.g_stmt(x) for x in ss),) * 3) for ss in cs]
+    spec_out = coq_eval("From SV Require Import Ast.Spec Tree.LemmaB Tree.LemmaBProofs Tree.ScriptExact Tree.ScriptExactUnion Tree.ScriptExactExt.\nOpen Scope string_scope.", exprs, shard=200)
     impl_out = t2tie.summaries([{"sql": "\n".join(astgen.to_sql(x) for x in ss), "dialect": "ansi", "metadata": None, "config": {}} for ss in cs])
     dist["s3_core_scripts"] = {"scripts": len(cs), "inside_guard": 0, "nonempty": 0, "statements": {}}
     for ss, sp, im in zip(cs, spec_out, impl_out):
